@@ -21,7 +21,7 @@ EXHAUSTIVE = {"quick": ["fixed witness table x every function x every option"], 
 REQUIRE = {"pc_conditional_cases": 12, "pc_conditional_weighted": 6, "pc_conditional_multi_on": 6, "pc_conditional_two_by": 2,
            "singleton_group_tables": 20, "pc_grouped_cross_cases": 5, "pcDelta_grouped_cases": 14, "pcDelta_grouped_bins0": 1,
            "pcDelta_grouped_cross_condensed": 11, "pcDelta_grouped_cross_square_bins0": 2, "renyi_cases": 10, "renyi_conditional": 5,
-           "stdrenyi_cases": 4, "numeric_key_tables": 10, "cells_compared": 500, "weights_ndarray_reused": 3}
+           "stdrenyi_cases": 4, "numeric_key_tables": 10, "cells_compared": 500, "weights_ndarray_reused": 3, "renyi_pc_exactly_zero": 3}
 SHARDS = {"quick": 4, "thorough": 16}
 
 
@@ -320,6 +320,8 @@ def k_renyi(ctx, rows, cols, features, by=None, base=2.0, weights=None):
         want = float("inf")
     else:
         want = -math.log(p) / (math.log(base) if base is not None else 1.0)
+    if p == 0:
+        ctx.count("renyi_pc_exactly_zero")
     ctx.nontriv(["ren", rows, features, by, base, weights])
     ctx.sample("renyi2_entropy", {"rows": rows[:6], "features": features, "by": by, "base": base, "expected": want})
     kw = {"base": base}
@@ -420,6 +422,11 @@ def generate(tier, seed):
     rng = random.Random(13000 + seed)
     thorough = tier == "thorough"
     yield from _all_for(WIT, rng, True)
+    distinct = [["a", 1, "AA", "x"], ["a", 1, "AB", "y"], ["b", 2, "AC", "x"], ["b", 2, "AD", "z"], ["a", 2, "BA", "w"]]      # pc exactly 0
+    for base in (2.0, 10.0, None):
+        yield "renyi", {"rows": distinct, "cols": COLS, "features": "seq", "base": base}, True
+        yield "renyi", {"rows": distinct, "cols": COLS, "features": ["seq", "f"], "base": base}, True
+        yield "renyi", {"rows": distinct, "cols": COLS, "features": "seq", "by": "g1", "base": base}, True
     if thorough:
         yield from _all_for(WIT[:5], rng, True)
         yield from _all_for([r for r in WIT if r[0] == "b"], rng, True)
